@@ -211,7 +211,7 @@ func armCalls(c *driver.Ctx) {
 	for _, k := range kinds {
 		c.Cover("callables_enumerated", k.name)
 	}
-	rounds := c.Pick(6, 600)
+	rounds := c.Pick(3, 40)
 	per := 40
 	for round := 0; round < rounds; round++ {
 		for ki := range kinds {
